@@ -98,9 +98,22 @@ class Teardown:
             if (fl[0] in ("mv", "xfer") and fl[1] == b and fl[2] == f) or (fl[0] == "held" and fl[2] == b and fl[3] == f) or (fl[0] == "dropped" and fl[1] == b and fl[2] == f):
                 eng.violate("TS-1", "double-moveout:%s" % f, "field `%s` of %s is moved out a second time on one path" % (f, show(b)), ev.b, st)
                 return None
+        if f == "links" and st.empty(b) is True:
+            st = add(st, ("links_empty_at_move", ev.res))
+        put = ev.get("put")
+        if f == "links" and put is not None:
+            # a table taken out of one object and installed in another: it must have been seen empty when it was taken,
+            # or the receiving object starts its life with records that none of the peers named in them mirrors
+            for fl in st.flags:
+                if fl[0] == "mv" and fl[2] == "links" and fl[1] != b and (put == fl[3] or sub(put, fl[3])) and ("links_empty_at_move", fl[3]) not in st.flags:
+                    eng.violate("SYM-3", "records-carried-into-another-object", "the link table taken out of %s is installed in %s without having been seen empty: %s starts with adoption records that the peers named in them do not mirror (and that name the given-up allocation's peers)" % (
+                        show(fl[1]), show(b), show(b)), ev.b, st)
         ss = st.strong(b)
+        from expr import is_fresh_alloc
         if ss <= DEAD:
             pass
+        elif is_fresh_alloc(b) and ev.how == "replace":
+            pass      # an object under construction (allocated here, not yet handed out): its fields are being set up
         elif ss == frozenset("O"):
             st = add(st, ("must_dec", b))
         else:
@@ -251,7 +264,10 @@ class Teardown:
                 st = add(st, ("killed", b))
             if unwinding and any(fl[0] in ("mv", "dropped", "held", "xfer") and b in fl for fl in st.flags):
                 eng.violate("UNW-1", "strong-write-in-cleanup", "an unwinding continuation writes the strong count of %s whose teardown was interrupted" % show(b), ev.b, st)
-            if ev.cls == "max" and not (st.strong(b) <= DEAD):
+            # the last handle going away may mark its object uninit straight from strong == 1 (one -> uninit without the stop
+            # at zero): after it there are no strong handles, which is what dead means
+            last_handle = self.entry_kind == "rc_drop" and b == self.self_box and st.strong(b) == frozenset("O")
+            if ev.cls == "max" and not (st.strong(b) <= DEAD) and not last_handle:
                 eng.violate("TS-1", "uninit-mark-on-live", "%s is marked uninit while not known dead (strong-state %s)" % (show(b), "".join(sorted(st.strong(b)))), ev.b, st)
             return st
         # weak counter
